@@ -1123,14 +1123,14 @@ func c04RunCase(t *testing.T, out *vh.Out, c *c04Case) {
 var c04Domains = [][]string{
 	{"example.org", "EXAMPLE.ORG", "Example.Org", "example.org."},
 	{"example.com", "EXAMPLE.com"},
-	{"münchen.de", "münchen.de", "xn--mnchen-3ya.de", "XN--MNCHEN-3YA.DE", "MÜNCHEN.DE"},
+	{"m\u00fcnchen.de", "mu\u0308nchen.de", "xn--mnchen-3ya.de", "XN--MNCHEN-3YA.DE", "M\u00dcNCHEN.DE"},
 	{"sub.example.org", "SUB.Example.org"},
 }
 
 var c04Locals = [][]string{
 	{"alice", "ALICE", "Alice"},
 	{"bob", "Bob"},
-	{"é", "é", "É"},
+	{"\u00e9", "e\u0301", "\u00c9"},
 	{"carol", "CAROL"},
 }
 
